@@ -42,6 +42,10 @@ CORPUS = {
                        "initialization_problem.override(title='Variable Problem')\n"
                        "initialization_problem.override(title='Use Before Assignment')\nfrom pedal.tifa import tifa_analysis\nverify()\ntifa_analysis()\nrun()\n",
                        "print(never_assigned)\n"),
+    'func_attr_write': ("from pedal import *\nfrom pedal.tifa import tifa_analysis\nverify()\ntifa_analysis()\nrun()\nset_success()\n",
+                        "def visit(place):\n    visit.calls = visit.calls + 1\n    return place\nvisit.calls = 0\nvisit('home')\nprint(visit.calls)\n"),
+    'func_attr_read': ("from pedal import *\nfrom pedal.tifa import tifa_analysis\nverify()\ntifa_analysis()\nrun()\nset_success()\n",
+                       "def greet(name):\n    return 'Hello ' + name\nprint(greet('Ada'))\nprint(greet.calls + 1)\n"),
     'tifa_default_title': ("from pedal import *\nfrom pedal.tifa import tifa_analysis\nverify()\ntifa_analysis()\nrun()\n", "print(never_assigned)\n"),
     'helper_with_state': ("from pedal import *\nverify()\nrun()\nassert_equal(get_output(), ['2'])\nset_success()\n",
                           "import helper\nhelper.stock('apple')\nprint(helper.stock('pear'))\n",
@@ -154,6 +158,11 @@ def bounded(arg):
             diff = {k: (got.get(k), baseline[b].get(k)) for k in set(got) | set(baseline[b]) if got.get(k) != baseline[b].get(k)}
             failures.append({'id': 'history', 'canon': 'result depends on the earlier grading (%s)' % a,
                              'detail': 'grading %s after %s differs from a fresh interpreter: %r' % (b, a, diff)})
+    # the command-line pipeline (Bundle.run_ics_bundle with the standard environment): a script sees only its own globals
+    bf, bn = bundle_pairs()
+    failures += bf
+    evaluations += bn
+    distinct |= set(('bundle', i) for i in range(bn))
     seq_failures, seq_n = override_sequences()
     failures += seq_failures
     evaluations += seq_n
@@ -164,6 +173,61 @@ def bounded(arg):
             'runtime errors); baseline = each entry graded first in a fresh interpreter' % (len(names) ** 2, len(names)),
             'evaluations': evaluations, 'distinct_nontrivial': len(distinct), 'exhaustive': True,
             'rule': 'distinct = (earlier entry, later entry)', 'samples': samples, 'failures': failures}
+
+
+BUNDLE_SCRIPTS = {
+    'defines_a_global': "from pedal import *\nSTRICT_MODE = True\nhelper_limit = 3\nif STRICT_MODE:\n    gently('strict', label='strict')\n",
+    'reads_a_global_it_never_defined': "from pedal import *\nif globals().get('STRICT_MODE'):\n    gently('leaked strictness', label='leak')\n"
+                                       "try:\n    helper_limit\n    gently('leaked name', label='leak2')\nexcept NameError:\n    pass\n",
+    'plain': "from pedal import *\nrun()\nset_success()\n",
+}
+
+
+def bundle_grade(name):
+    import argparse
+    import io
+    from pedal.command_line.modes import Bundle
+    from pedal.core.submission import Submission
+    real = sys.stdout
+    sys.stdout = io.StringIO()
+    try:
+        submission = Submission(files={'answer.py': "print('hi')\n"}, main_file='answer.py', instructor_file='grader.py')
+        bundle = Bundle(argparse.Namespace(threaded=False, resolver='resolve'), BUNDLE_SCRIPTS[name], submission)
+        bundle.environment = 'standard'
+        bundle.run_ics_bundle()
+        res = bundle.result.resolution
+        return None if res is None else [res.label, res.title, res.message, res.correct, res.score]
+    except BaseException as e:
+        return ['raised', repr(e)]
+    finally:
+        sys.stdout = real
+
+
+def bundle_fresh(name):
+    env = dict(os.environ, PYTHONPATH=os.environ.get('PEDAL_REPO', '/repo'), PYTHONHASHSEED='0')
+    here = os.path.dirname(os.path.abspath(__file__))
+    p = subprocess.run([sys.executable, '-c',
+                        "import sys, json; sys.path.insert(0, %r); import c13; print('RESULT' + json.dumps(c13.bundle_grade(%r), default=repr))" % (here, name)],
+                       capture_output=True, text=True, env=env, timeout=120)
+    for line in p.stdout.splitlines():
+        if line.startswith('RESULT'):
+            return json.loads(line[6:])
+    raise RuntimeError('fresh bundle grading of %s failed: %s' % (name, p.stderr[-500:]))
+
+
+def bundle_pairs():
+    failures = []
+    n = 0
+    base = {k: bundle_fresh(k) for k in BUNDLE_SCRIPTS}
+    for a in BUNDLE_SCRIPTS:
+        for b in BUNDLE_SCRIPTS:
+            n += 1
+            bundle_grade(a)
+            got = json.loads(json.dumps(bundle_grade(b), default=repr))
+            if got != base[b]:
+                failures.append({'id': 'history', 'canon': 'command-line grading depends on the earlier script (%s)' % a,
+                                 'detail': 'Bundle grading of %s after %s: %r, in a fresh interpreter %r' % (b, a, got, base[b])})
+    return failures, n
 
 
 def override_sequences():
